@@ -158,21 +158,22 @@ for _m, _n, _nzs, _tiers, _sfx in ((2, 2, range(0, 5), ('quick', 'thorough'), ''
 # C11.s sparse back-end cs: row / column scaling of a real MatrixSparse (opt_eigen = 0) vs the dense definition (harness/C11/csscale.cpp)
 _CSSCALETUS = ['src/Matrix/MatrixSparse.cpp', 'src/Matrix/LinkMatrixSparse.cpp', 'src/Matrix/AMatrix.cpp', 'src/Basic/Utilities.cpp',
                'src/Basic/AStringable.cpp', '3rd-party/csparse/csparse.cpp']
-for _m, _n, _nzs, _sfx in ((2, 2, (0, 1, 2), ''), (2, 2, (3,), '.nz3'), (2, 3, (0, 1, 2), ''), (2, 3, (3,), '.nz3')):
+for _m, _n, _nzs, _sfx in ((2, 2, (0, 1, 2, 3), ''), (2, 3, (0, 1, 2, 3), '')):
     K('C11.s.%dx%d%s' % (_m, _n, _sfx), property='C11', engine='symex', harness='C11/csscale.cpp',
       entries=['k_%s_%d' % (o, z) for z in _nzs for o in ('mulrow', 'mulcol', 'divrow', 'divcol')], tiers=('quick', 'thorough'),
-      tus=_CSSCALETUS, defines={'all': {'VF_M': _m, 'VF_N': _n}, 'quick': {'VF_NZSYM': 1}, 'thorough': {'VF_NZSYM': 2}},
-      bounds={'quick': 'MatrixSparse with the cs storage, %dx%d, exactly %s triplet entries at arbitrary positions (duplicates allowed, summed), integer values |v|<=100; '
-                       'vec allocated at exactly its documented length (nrows for the row operations, ncols for the column operations): for at most 1 entry (thorough: 2) an arbitrary '
-                       'integer-valued vector |v|<=100 (divisors: every non-zero integer in [-100,101]), for more entries the vector (2,-4,8)' % (_m, _n, '0..2' if len(_nzs) > 1 else '3')},
+      tus=_CSSCALETUS, defines={'all': {'VF_M': _m, 'VF_N': _n}},
+      bounds={'quick': 'MatrixSparse with the cs storage, %dx%d, exactly %s entries at arbitrary pairwise distinct positions given in any order (every sparsity pattern; triplets falling on the same cell are summed by the '
+                       'constructor, which gives a pattern with fewer entries), integer values |v|<=100; '
+                       'vec an arbitrary integer-valued vector |v|<=100 (divisors: every non-zero integer in [-100,101]) allocated at exactly its documented length (nrows for the row operations, '
+                       'ncols for the column operations)' % (_m, _n, '0..3')},
       timeout_ms={'quick': 60000, 'thorough': 600000}, validate={'quick': 10, 'thorough': 30}, validate_doubles='int',
       what='MatrixSparse(const cs*), MatrixSparse::multiplyRow / multiplyColumn / divideRow / divideColumn on the cs back-end with cs_matvecR / cs_matvecL, cs_duplicate (cs_add), '
            'operate_Identify / operate_Identity / operate_Inverse, cs_spfree2, MatrixSparse::getValue (cs_get_value): R(i,j) = vec[i]*M(i,j) resp. vec[j]*M(i,j) '
            '(division likewise) for every cell, read through getValue and through the compressed-column arrays; storage stays a well-formed compressed matrix of the same shape; '
            'vec is not modified and not read out of bounds',
-      out='more than 3 entries, larger shapes; rounding of 1/v and of the products (real-arithmetic reading); the Eigen sparse back-end; divisors below 1e-10 in absolute value (operate_Inverse returns TEST)',
+      out='more than 3 entries, larger shapes; the summation of duplicate triplets by the constructor (cs_add; C11.d decides cs_triplet); rounding of 1/v and of the products (real-arithmetic reading); the Eigen sparse back-end; divisors below 1e-10 in absolute value (operate_Inverse returns TEST)',
       assumptions=['real-arithmetic reading: M*(1/v) == M/v', 'the triplet dimensions are written as constants before cs_triplet so that allocation sizes are concrete (C11.d decides that cs_entry keeps them); allocation never fails'],
       stubs=['solver build only: memset (C library call of the default constructor of the unused Eigen::SparseMatrix member) -> the llvm.memset intrinsic the executor models',
              'solver build only: realloc(p, n) -> p, block kept at its allocated size (cs_sprealloc(C, 0) at the end of cs_add trims to a data-dependent size; only shrinking calls occur, '
              'a growing call would surface as an out-of-bounds obligation)',
-             'the operation is called once per possible number of stored entries (case split in the harness, same call in every branch) so that the allocation sizes of cs_add are concrete on each path'])
+             ])
